@@ -977,6 +977,8 @@ impl Graph {
         outputs: &[NodeId],
         is_subgraph: bool,
     ) -> Result<Arc<CachedPlan>, RunError> {
+        #[cfg(rten_verif)]
+        verif_plan_log::set_graph(self as *const Graph as usize, is_subgraph);
         // Reuse the plan from the previous run if the input and output IDs
         // match, otherwise create a new one.
         //
@@ -1669,6 +1671,7 @@ pub mod verif_plan_log {
     /// Start (or restart) logging with an empty log.
     pub fn start() {
         *LOG.lock().unwrap_or_else(|e| e.into_inner()) = Some(Vec::new());
+        GRAPHS.lock().unwrap_or_else(|e| e.into_inner()).clear();
     }
 
     /// Stop logging and return the entries recorded since `start`.
@@ -1683,7 +1686,31 @@ pub mod verif_plan_log {
     pub(super) fn record(inputs: &[NodeId], outputs: &[NodeId], hit: bool) {
         if let Some(log) = LOG.lock().unwrap_or_else(|e| e.into_inner()).as_mut() {
             log.push((inputs.to_vec(), outputs.to_vec(), hit));
+            let (graph, is_subgraph) = CURRENT.with(|c| c.get());
+            GRAPHS
+                .lock()
+                .unwrap_or_else(|e| e.into_inner())
+                .push((graph, is_subgraph));
         }
+    }
+
+    thread_local! {
+        static CURRENT: std::cell::Cell<(usize, bool)> = const { std::cell::Cell::new((0, false)) };
+    }
+
+    /// `(graph address, is_subgraph)` of each entry of the log, in the same order.
+    static GRAPHS: Mutex<Vec<(usize, bool)>> = Mutex::new(Vec::new());
+
+    /// Called on entry to `get_cached_plan`: which graph's cache the calling
+    /// thread is about to lock.
+    pub(super) fn set_graph(graph: usize, is_subgraph: bool) {
+        CURRENT.with(|c| c.set((graph, is_subgraph)));
+    }
+
+    /// Return and clear the `(graph address, is_subgraph)` list that parallels
+    /// the entries recorded since `start`. Call before `take`.
+    pub fn take_graphs() -> Vec<(usize, bool)> {
+        std::mem::take(&mut *GRAPHS.lock().unwrap_or_else(|e| e.into_inner()))
     }
 }
 
